@@ -13,4 +13,9 @@ PROPS = {
  "C10": dict(needs=REFINE + ["RunG", "Exc", "Deep", "LinkErr"], gen=["GenErr"], slices=[("slices_core", "core_programs")]),
  "C11": dict(needs=CORE + ["Float", "Arith", "LinkArith"], gen=["GenArith"], slices=[("slices_core", "int_kernels")]),
  "C19": dict(needs=CORE + ["Events"], gen=[], slices=[("slices_core", "core_programs"), ("slices_core", "io_trees")]),
+ "C01": dict(needs=["Base", "Num", "Lex", "Jamo", "SpecC01"], gen=["GenParse", "GenTS"], slices=[("slices_text", "c01_exhaustive"), ("slices_text", "c01_model_points"), ("slices_text", "c01_respell")]),
+ "C08": dict(needs=["Base", "Num", "NumProofs", "Lex", "ParseProofs", "Strings", "Builtins", "Interp", "LinkNames"], gen=["GenParse", "GenNames", "GenIO"], slices=[("slices_text", "c08_codec"), ("slices_text", "c08_spellings")]),
+ "C09": dict(needs=["Base", "Num", "NumProofs", "Lex", "ParseProofs"], gen=["GenParse"], slices=[("slices_text", "c09_parse")]),
+ "C14": dict(needs=["Files", "FilesProofs", "LinkNames"], gen=["GenIO"], slices=[("slices_world", "c14_histories"), ("slices_world", "c14_faults")]),
+ "C15": dict(needs=["ImpSearch", "ImportProofs"], gen=[], slices=[("slices_world", "c15_search"), ("slices_world", "c15_semantics")]),
 }
